@@ -44,6 +44,12 @@ def systems(tier):
                             input=dict(kind="mc", atoms=[(i + 1, tdef["res"][i][0], tdef["res"][i][1][0]) for i in range(npre)],
                                        coords=pts, box=[4.0, 4.0, 4.0]),
                             kwargs=dict(nrewind=nrewind, maxiter=2)))
+    # a supplied residue in the middle of the chain (given with -c, all other residues named in -res): the growth path
+    # has a skipped step inside the window a rewind covers
+    for nrewind in (2, 3, 5):
+        out.append(dict(types=["MID7"], molecules=[("MID7", 1)], box=[4.0, 4.0, 4.0], grid=GRID,
+                        input=dict(kind="c", atoms=[(4, "K", "k")], coords=[(2.0, 0.5, 0.5)], box=[4.0, 4.0, 4.0]),
+                        kwargs=dict(nrewind=nrewind, maxiter=2, build_res=["S"]), F=2 if tier == "quick" else 3))
     if tier == "thorough":
         for typ in ("RING4", "RING6", "CH5"):
             for nrewind in (1, 2, 3, 5):
